@@ -580,6 +580,30 @@ func (ociSuite) Run(raw json.RawMessage) []Step {
 	appended = append(appended, rawEntry{name: "index.json", size: int64(len(rawIdx))})
 	steps = append(steps, Step{Line: "oci.bundle\t" + ociEntries(ents[:mi+1]) + "\t" + ociEntries(appended), Go: strings.Join(blocks, ","),
 		Desc: "block layout of " + bdesc, Tags: []string{"bundle:" + onBoundary, fmt.Sprintf("tags:%d", len(tags))}})
+	// 4b'. the entries MultiWrite wrote against the model (images in the order their configs appear)
+	{
+		var imgItems []string
+		for _, e := range ents[:mi] {
+			for _, b := range order {
+				cn, _ := b.img.ConfigName()
+				if cn.String() != e.name {
+					continue
+				}
+				rawCfg, _ := b.img.RawConfigFile()
+				ls, _ := b.img.Layers()
+				var lss []string
+				for _, l := range ls {
+					d, _ := l.Digest()
+					sz, _ := l.Size()
+					lss = append(lss, fmt.Sprintf("%s=%d", hx(d.Hex+".tar.gz"), sz))
+				}
+				imgItems = append(imgItems, fmt.Sprintf("x%s:%d:%s", hx(e.name), len(rawCfg), strings.Join(lss, ";")))
+				break
+			}
+		}
+		steps = append(steps, Step{Line: fmt.Sprintf("oci.multiwrite\t%s\t%d", strings.Join(imgItems, ","), msize), Go: ociEntries(ents[:mi+1]),
+			Desc: "entries written by MultiWrite in " + bdesc, Tags: []string{fmt.Sprintf("multiwrite:%d-images", len(imgItems))}})
+	}
 	// 4c. tag → image map (from manifest.json) and completeness
 	var tagNames []string
 	for _, t := range tags {
